@@ -35,9 +35,10 @@ def wired_driver(scenarios, tag):
     # real block relay + real wallet account manager / validators manager + real signer + real preparer + go-builder-client
     # HTTP clients to recording relay servers; one instance per history; a step that does not return within the
     # watchdog is a Hung line (a wedge is a deadlock: it reproduces whatever the period)
-    wd = 5000
+    # (15 s: at a load average of 500 a refresh of the wallet account manager was once seen to take more than 5 s)
+    wd = 15000
     if tag.startswith("confirm"):
-        wd = 15000
+        wd = 30000
     return vf.run_driver(PID, PKG, WIRED_TEST, scenarios, "wired-" + tag, env={"VERIF_WATCHDOG_MS": wd}, timeout=900)
 
 
